@@ -163,6 +163,15 @@ impl AnyVal {
             AnyVal::Quad(v, m) => AnyVal::Quad(v.clone(), m.clone()),
         }
     }
+    /// a clone of `donor` overwritten with `clone_from(self)`, paired with self's model
+    pub fn clone_from_into(&self, donor: &AnyVal) -> Option<AnyVal> {
+        match (self, donor) {
+            (AnyVal::Seq(a, m), AnyVal::Seq(d, _)) => a.clone_from_into(d.as_ref()).map(|t| AnyVal::Seq(t, m.clone())),
+            (AnyVal::Bits(a, m), AnyVal::Bits(d, _)) => a.clone_from_into(d).map(|t| AnyVal::Bits(t, m.clone())),
+            (AnyVal::Quad(a, m), AnyVal::Quad(d, _)) => a.clone_from_into(d).map(|t| AnyVal::Quad(t, m.clone())),
+            _ => None,
+        }
+    }
     pub fn eq_val(&self, other: &AnyVal) -> bool {
         match (self, other) {
             (AnyVal::Seq(a, _), AnyVal::Seq(b, _)) => a.eq_dyn(b.as_ref()),
